@@ -276,6 +276,7 @@ func (c *client) SendBatch(ctx context.Context, batch []hrpc.Call) (
 	var unretryableErrorSeen bool
 	var retries []hrpc.Call
 	backoff := backoffStart
+	immediateRetries := 0
 
 	for {
 		// findClients reports errors by position in batch, which in a
@@ -329,6 +330,12 @@ func (c *client) SendBatch(ctx context.Context, batch []hrpc.Call) (
 		// retries is empty), or the context is done.
 		if len(retries) == 0 || ctx.Err() != nil {
 			break
+		}
+		if !needBackoff {
+			// Like in SendRPC, retry immediately to failover fast to
+			// another server, but start to backoff if it keeps failing.
+			needBackoff = immediateRetries > 1
+			immediateRetries++
 		}
 		if needBackoff {
 			sp.AddEvent("retrySleep")
